@@ -165,6 +165,23 @@ def populateP (rows : List (List Rat)) (cond : List (List Nat × List Rat)) :
           let r := populateP rows cond fuel outcome oc.2 acc.2
           (acc.1 ++ r.1, r.2)) ([e.2], draws.drop 1)
 
+/-- the oracle is well formed along the run of `populate`: every answer array has the requested size (and there is fuel left).
+Same recursion and the same consumption of draws as `populate`. -/
+def drawsOK (rows : List (List Rat)) (cond : List (List Nat × List Rat)) :
+    Nat → List Nat → Nat → Draws → Bool × Draws
+  | 0, _, _, draws => (false, draws)
+  | fuel + 1, state, numDesired, draws =>
+    match cond.find? (fun e => e.1 == state) with
+    | none => (true, draws.drop (rows.length - state.length))
+    | some _ =>
+      let cur := draws.headD []
+      (counter cur).foldl (fun (acc : Bool × Draws) oc =>
+        let outcome := state ++ [oc.1]
+        if outcome.length == rows.length then acc
+        else
+          let r := drawsOK rows cond fuel outcome oc.2 acc.2
+          (acc.1 && r.1, r.2)) (cur.length == numDesired, draws.drop 1)
+
 /-- the single-leftover shortcut: follow the unique non-zero entry at every level, if there is one -/
 def singleLeftover (rows : List (List Rat)) (cond : List (List Nat × List Rat)) : Nat → List Nat → Option (List Nat)
   | 0, state => if state.length == rows.length then some state else none
@@ -234,5 +251,31 @@ def samplerCalls (rows : List (List Rat)) (N : Option Rat) (atol : Rat) (draws :
     match (if conds.isEmpty then none else singleLeftover rows conds rows.length []) with
     | some _ => []
     | none => (populateP rows conds (rows.length + 1) [] needed.toNat draws).1
+
+/-- were the sampler calls of `_generate_qpd_weights` all answered with arrays of the requested size?  (`true` when nothing is sampled;
+same branches as `generateWeights`) -/
+def samplerOK (rows : List (List Rat)) (N : Option Rat) (atol : Rat) (draws : Draws) : Bool :=
+  match N with
+  | none => true
+  | some n =>
+    if !(1 ≤ n) then true else
+    let thr := 1 / n
+    let smallest := (rows.map fun r => (minNonzero atol r).getD 0).prod
+    if thr ≤ smallest then true else
+    let largest := (rows.map maxOf).prod
+    let ys := if thr ≤ largest then genUnsorted rows thr atol else []
+    let conds : List (List Nat × List Rat) := ys.filterMap fun
+      | Y.full _ _ => none
+      | Y.cond s arr => some (s, arr)
+    let wts0 : Rat := match conds.find? (fun e => e.1 == []) with
+      | some e => e.2.sum
+      | none => 1
+    if !conds.isEmpty && wts0 == 0 then true else
+    let conds := conds.map fun e => if e.1 == [] then (e.1, e.2.map (· / wts0)) else e
+    let needed := ceilRat (wts0 * n)
+    if needed < 1 then true else
+    match (if conds.isEmpty then none else singleLeftover rows conds rows.length []) with
+    | some _ => true
+    | none => (drawsOK rows conds (rows.length + 1) [] needed.toNat draws).1
 
 end CKT
